@@ -87,6 +87,21 @@ func setupC17(env *engine.Env) error {
 	for k, v := range over0 {
 		over[k] = v
 	}
+	// a binary built the way a release is (version, commit and date stamped in by the linker) writes the same file
+	relBin := filepath.Join(env.Scratch, "nfpm-release-bin")
+	rb := exec.Command("go", "build", "-ldflags", "-s -w -X main.version=2.43.0 -X main.commit=0123456789abcdef -X main.date=2024-05-10T08:30:00Z -X main.builtBy=goreleaser -X main.treeState=false", "-o", relBin, "./cmd/nfpm")
+	rb.Dir = env.Repo
+	rb.Env = append(os.Environ(), "GOFLAGS=-mod=mod", "GOPROXY=off", "GOSUMDB=off", "GOTOOLCHAIN=local")
+	if b, err := rb.CombinedOutput(); err != nil {
+		return fmt.Errorf("go build (release flags) ./cmd/nfpm: %v: %s", err, b)
+	}
+	relOut := filepath.Join(env.Scratch, "schema-out", "release.json")
+	if b, err := exec.Command(relBin, "jsonschema", "-o", relOut).CombinedOutput(); err != nil {
+		over["release-build"] = []byte(fmt.Sprintf("command failed: %v: %s", err, b))
+	} else {
+		over["release-build"], _ = os.ReadFile(relOut)
+	}
+	os.Remove(relBin)
 	so, err := exec.Command(bin, "jsonschema").Output()
 	if err != nil {
 		return fmt.Errorf("nfpm jsonschema: %v", err)
